@@ -38,3 +38,13 @@ Print Assumptions C14_ravel_is_rowmajor.
 Example C14_example :
   apply_acc 1 [10; 20; 30] [(1%N, 0%N); (1%N, 1%N)] [5; 7] = [10; 32; 30].
 Proof. reflexivity. Qed.
+
+(* "get_at with the same coordinates reads back what set_at wrote": when no two loop iterations address the same target
+   element, reading the target elements of the plan after set_at yields exactly the update values, for every plan length
+   and every tensor size (with collisions, the previous theorem gives one of the competing values) *)
+Theorem C14_get_at_reads_back_what_set_at_wrote : forall t u plan,
+  (forall pq, In pq plan -> (N.to_nat (fst pq) < length t)%nat) ->
+  NoDup (map (fun pq => N.to_nat (fst pq)) plan) ->
+  read_back (apply_set t plan u) plan = map (fun pq => (snd pq, getZ u (snd pq))) plan.
+Proof. exact set_then_get_reads_back. Qed.
+Print Assumptions C14_get_at_reads_back_what_set_at_wrote.
